@@ -9,5 +9,17 @@ mkdir -p .work evidence replays
 ./.work/tr random "${VERIF_REPO:-/repo}" lean/Chihaya/Gen/Random.lean
 ./.work/tr validate "${VERIF_REPO:-/repo}" lean/Chihaya/Gen/Validate.lean
 (cd lean && lake build Chihaya modeldrv)
-(cd harness && cp "${VERIF_REPO:-/repo}/go.sum" go.sum && go build -tags verif -o ../.work/hx-warm ./hx && rm -f ../.work/hx-warm)
+# warm the Go build cache with the harness (built with the overlay shims, exactly as ./check builds it)
+python3 - <<'PY'
+import json, os
+root = os.getcwd(); repo = os.environ.get("VERIF_REPO", "/repo")
+repl = {}
+sh = os.path.join(root, "harness", "shims")
+for dp, _, fs in os.walk(sh):
+    for fn in fs:
+        if fn.endswith(".go"):
+            repl[os.path.join(repo, os.path.relpath(dp, sh), "zz_verif_" + fn)] = os.path.join(dp, fn)
+json.dump({"Replace": repl}, open(os.path.join(root, ".work", "overlay-setup.json"), "w"))
+PY
+(cd harness && go build -tags verif -overlay ../.work/overlay-setup.json -o ../.work/hx-warm ./hx && rm -f ../.work/hx-warm)
 echo setup ok
